@@ -53,7 +53,12 @@ def mk_id(typ, n):
 POOL = {t: [mk_id(t, k) for k in range(1, NIDS + 1)] for t in TYPES}
 # ids that break the hypotheses of the filesystem theorems (only used with dictionary-kept content)
 ODD_IDS = ["x-unreg--abc", "x-unreg--0000000A-0000-4000-8000-00000000000A", POOL["x-other"][0], "x-unreg--" + "1" * 8]
-ALL_IDS = [i for t in TYPES for i in POOL[t]] + ODD_IDS[:2] + ODD_IDS[3:]
+# dictionary-kept content is not validated, so its ids may spell the UUID with upper-case hex digits; the stores
+# must cope (the directory scan of the filesystem source is case-insensitive): inside the property's domain
+HEX_IDS = ["x-unreg--0000000A-0000-4000-8000-00000000000A", "x-unreg--0000000b-0000-4000-8000-00000000000b",
+           "x-unreg--ABCDEF01-0000-4000-8000-0000000000Fe"]
+OUTSIDE_IDS = {ODD_IDS[0], ODD_IDS[2], ODD_IDS[3]}      # no UUID shape / another type's prefix
+ALL_IDS = [i for t in TYPES for i in POOL[t]] + ODD_IDS[:2] + ODD_IDS[3:] + HEX_IDS[1:]
 ID_NAME = {i: "i%d" % k for k, i in enumerate(ALL_IDS)}
 TYPE_NAME = {t: "t%d" % k for k, t in enumerate(TYPES)}
 
@@ -303,7 +308,7 @@ def canon_model(tok):
 
 def compare_line(model_line, impl, add_flags):
     """-> list of (index, model token, impl token) that differ"""
-    mt = model_line.split(" ")
+    mt = model_line.split("\\,")
     if mt and mt[-1] == "":
         mt.pop()
     if isinstance(impl, dict):
@@ -412,6 +417,8 @@ def gen_case(rng, store, profile=None, max_adds=10):
         cls = rng.choice(classes)
         typ = CLASSES[cls][0]
         oid = rng.choice(POOL[typ][:4])
+        if cls == "unreg" and rng.random() < 0.3:
+            oid = rng.choice(HEX_IDS)
         if violating and cls == "unreg" and rng.random() < 0.5:
             oid = rng.choice(ODD_IDS)
         actors.append((cls, oid, typ))
@@ -563,18 +570,34 @@ def holds(f, r):
     raise ValueError(k)
 
 
-def in_domain(case):
-    """The property's domain: every id is of one kind (always or never a
-    `modified`), dictionary-kept timestamps are timestamps, ids have their
-    type as prefix and the UUID shape, items are well formed or refused."""
-    return case.get("profile") != "violating"
+def outside_ids(case):
+    """ids of this case that lie outside the property's domain: used with and without `modified`,
+    dictionary-kept `modified` that is not a timestamp, no UUID shape or another type's prefix."""
+    seen = {}
+    bad = set()
+    for st in case["steps"]:
+        if st["op"] in ("add", "load"):
+            for _, its in flatten(st["x"]):
+                for it in its:
+                    if not isinstance(it, dict):
+                        continue
+                    i = it["id"]
+                    has = it.get("mod") is not None or bool(it.get("moddt"))
+                    if seen.setdefault(i, has) != has:
+                        bad.add(i)
+                    if i in OUTSIDE_IDS or it.get("noid"):
+                        bad.add(i)
+                    if it["cls"] == "unreg" and it.get("mod") is not None and storeutil.parse_ts(it["mod"]) is None:
+                        bad.add(i)
+    return bad
 
 
 def oracle_case(case, impl):
     """-> list of Violation for one C11 case (implementation observations only)."""
-    if isinstance(impl, dict) or not in_domain(case):
+    if isinstance(impl, dict):
         return []
     out = []
+    outside = outside_ids(case)
     L, maybe = [], []
     af = case.get("af", [])
     store = case["store"]
@@ -622,8 +645,12 @@ def oracle_case(case, impl):
 
     def check_list(what, got, recs, q, mrecs):
         if isinstance(got, str):
-            viol("%s raised %s" % (what, got[1:]), False)
+            if not outside:
+                viol("%s raised %s" % (what, got[1:]), False)
             return
+        recs = [r for r in recs if r["id"] not in outside]
+        mrecs = [r for r in mrecs if r["id"] not in outside]
+        got = [g for g in got if g[0] not in outside]
         allr = recs + mrecs
         sure, optional = expected_pairs(recs, mrecs, q)
         seen = set()
@@ -656,7 +683,7 @@ def oracle_case(case, impl):
                 else:
                     L += recs
             else:
-                has_bad = any(not isinstance(it, dict) for it in items)
+                has_bad = any(not isinstance(it, dict) for it in items) or any(r["id"] in outside for r in recs)
                 dup = False
                 keys = {(r["id"], r["inst"]) for r in L + maybe}
                 for r in recs:
@@ -678,6 +705,8 @@ def oracle_case(case, impl):
         elif op == "saveload":
             if got != "ok" and got != "n/a":
                 viol("save_to_file / load_from_file raised %s" % got[1:], False)
+        elif op in ("get", "all") and st["id"] in outside:
+            continue
         elif op == "get":
             recs = [r for r in L if r["id"] == st["id"]]
             mrecs = [r for r in maybe if r["id"] == st["id"]]
@@ -714,7 +743,7 @@ def oracle_case(case, impl):
         elif op == "query":
             check_list("query(%s)" % st["q"], got, L, st["q"], maybe)
         elif op == "count":
-            if store == "fs" and not maybe and isinstance(got, int):
+            if store == "fs" and not maybe and not outside and isinstance(got, int):
                 n = len({(r["id"], r["inst"]) for r in L})
                 if got != n:
                     viol("%d files on disk for %d distinct (id, modified) added" % (got, n), False)
@@ -757,7 +786,7 @@ def check(run):
         "bundles, JSON text for the filesystem store, load_from_file for the memory store; STIX 2.0 and 2.1 SDOs/SROs, "
         "marking definitions, SCOs, a registered custom type, unregistered dictionary-kept content; 1-4 ids with "
         "2-5 instants drawn from a boundary palette in four spellings and as datetime objects in several zones; "
-        "re-adds; malformed items; a hypothesis-violating stream) interleaved with get/all_versions/query/count and "
+        "upper-case hex ids for dictionary-kept content; re-adds; malformed items; a hypothesis-violating stream judged per id) interleaved with get/all_versions/query/count and "
         "save/load, run on MemoryStore and FileSystemStore (temp dir, with and without bundlify) and on the Coq model; "
         "non-trivial = some id has two or more versions and some read returns an object" % max_adds)
     with common.Lock():
